@@ -79,7 +79,7 @@ Proof.
   destruct (rs_io rs && rs_sql rs); [exact I|]. split; [apply Psleep|]. intros _. apply IH.
 Qed.
 
-Lemma c_async cfg h sw : allcalls PP (async_switch_allowed cfg h sw).
+Lemma c_async_sw cfg h sw : allcalls PP (async_switch_allowed cfg h sw).
 Proof.
   unfold async_switch_allowed. destruct (sw_cause_ sw); try exact I. destruct (_ && _); [|exact I].
   split; [apply Pdcsget|]. intros r.
@@ -98,7 +98,7 @@ Proof.
   { split; [apply Psleep|]. intros _. apply allcalls_bind; [apply c_now|]. intros t. destruct (dl <? t); [exact I|exact IH]. }
   destruct r; try exact G. 
   - destruct e; try exact G. exact I.
-  - destruct v; try exact G. apply allcalls_bind; [apply c_async|]. intros a. destruct a; [exact I|exact G].
+  - destruct v; try exact G. apply allcalls_bind; [apply c_async_sw|]. intros a. destruct a; [exact I|exact G].
 Qed.
 End Calm.
 
@@ -263,50 +263,13 @@ Proof. intros st c r H. unfold lk_step. destruct c; try exact H. destruct r; try
 (* sb lo: peel one bind whose first part is calm, keeping "lo <= state" *)
 Ltac sb lo := apply (safe_bind_inv Z lk_step lk_ok (fun st => lo <= st) (lk_step_mono lo)); [assumption| |].
 
-Theorem switchover_lock_rechecks cfg env sw mem : safe Z lk_step lk_ok 0 (perform_switchover cfg env sw mem).
+Lemma CRb : forall h st0, stmt_reads st0 = true -> calmb (Sql h st0) = true.
+Proof. intros h st0 H. apply calmb_stmt. unfold sw_calm_stmt. rewrite H. reflexivity. Qed.
+
+(* stage 3 from a state with >= 1 successful re-check *)
+Lemma sw_promote_locks cfg env mem active nm mrs st : 1 <= st -> safe Z lk_step lk_ok st (sw_promote cfg env mem active nm mrs).
 Proof.
-  assert (H0 : 0 <= 0) by lia. revert H0. generalize 0 at 2 3 as st. intros st H0.
-  unfold perform_switchover.
-  match goal with |- safe _ _ _ _ (if ?c then _ else _) => destruct c end; [exact I|].
-  match goal with |- safe _ _ _ _ (if ?c then _ else _) => destruct c end; [exact I|].
-  set (active := match sw_cause_ sw, sw_from sw with | CauseAuto, Some f => _ | _, _ => _ end).
-  sb 0; [apply safe_calm; dapp d_opt_disable_all|]. clear st H0. intros st [e0|] H0; [exact I|].
-  sb 0; [destruct (negb (is_failover sw)); [apply safe_calm; dapp d_timing_now|exact I]|]. clear st H0. intros st _ H0.
-  cbn [safe]. split.
-  { induction active as [|h r IH]; [exact I|]. cbn [map]. split; [|exact IH].
-    eapply allcalls_impl; [|dapp d_freeze]. intros s c K. apply calmb_ok. exact K. }
-  intros errs.
-  match goal with |- safe _ _ _ _ (if ?c then _ else _) => destruct c end.
-  { sb 0; [apply safe_calm; dapp d_finish|]. intros; exact I. }
-  destruct (state_ping (se_state env) (se_old_master env)); [|exact I].
-  cbn [safe]. split.
-  { induction (filter_out active [se_old_master env]) as [|h r IH]; [exact I|]. cbn [map]. split; [|exact IH].
-    eapply allcalls_impl; [|dapp d_stop_io]. intros s c K. apply calmb_ok. exact K. }
-  intros errs2.
-  match goal with |- safe _ _ _ _ (if ?c then _ else _) => destruct c end; [exact I|].
-  (* ---- first lock re-check *)
-  unfold lock_acquire at 1. cbn [bind safe]. split; [split; discriminate|]. intros r1.
-  destruct r1; cbn [bind safe negb]; try exact I. match goal with |- context [RBool ?x] => destruct x end; cbn [negb]; [|exact I].
-  assert (H1 : 1 <= lk_step st LockAcquire (RBool true)) by (cbn; lia).
-  revert H1. generalize (lk_step st LockAcquire (RBool true)) as st1. clear st H0. intros st H1.
-  assert (CR : forall h st0, stmt_reads st0 = true -> calmb (Sql h st0) = true).
-  { intros h st0 H. apply calmb_stmt. unfold sw_calm_stmt. rewrite H. reflexivity. }
-  sb 1; [apply safe_calm; apply (c_node_positions calmb); first [exact CR | intros; reflexivity]|]. clear st H1. intros st op H1.
-  destruct op as [positions|]; [|exact I].
-  match goal with |- safe _ _ _ _ (if ?c then _ else _) => destruct c end; [exact I|].
-  match goal with |- safe _ _ _ _ (if ?c then _ else _) => destruct c end; [exact I|].
-  destruct (most_recent positions) as [|mrh mrs|]; [| |exact I].
-  { cbn [safe]. split; [split; discriminate|]. intros; exact I. }
-  match goal with |- safe _ _ _ _ (match ?c with Some _ => _ | None => _ end) => destruct c as [nm|] end; [|exact I].
-  sb 1.
-  { destruct (negb (N.eqb nm mrh)); [|exact I].
-    sb 1; [apply safe_calm; apply ac_exec; reflexivity|]. intros st' [e|] H1'; [exact I|].
-    sb 1; [apply safe_calm1; [apply pcm_calm1|assumption]|]. intros; exact I. }
-  clear st H1. intros st pre H1. destruct (negb pre); [exact I|].
-  sb 1; [apply safe_calm; apply (c_now calmb); first [exact CR | intros; reflexivity]|]. clear st H1. intros st t0 H1.
-  sb 1; [apply safe_calm; apply (c_wait_catch_up calmb); first [exact CR | intros; reflexivity]|]. clear st H1. intros st cu H1.
-  destruct cu as [[|]|]; try exact I.
-  (* ---- second lock re-check *)
+  intros H1. pose proof CRb as CR. unfold sw_promote.
   unfold lock_acquire at 1. cbn [bind safe]. split; [split; discriminate|]. intros r2.
   destruct r2; cbn [bind safe negb]; try exact I. match goal with |- context [RBool ?x] => destruct x end; cbn [negb]; [|exact I].
   assert (H2 : 2 <= lk_step st LockAcquire (RBool true)) by (cbn; lia).
@@ -335,7 +298,6 @@ Proof.
     destruct (is_slave_permanently_lost rs mrs); [apply safe_calm; dapp d_set_recovery|exact I]. }
   clear st H2. intros st [rec|] H2; [exact I|].
   sb 2; [apply safe_calm; apply ac_exec; reflexivity|]. clear st H2. intros st [e6|] H2; [exact I|].
-  (* RESET REPLICA ALL on the new master: needs both re-checks *)
   unfold exec_ at 1. cbn [bind safe]. split; [split; [intros _; exact H2|discriminate]|]. intros r7.
   assert (H2' : 2 <= lk_step st (Sql nm SResetReplAll) r7) by (apply lk_step_mono; exact H2).
   revert H2'. generalize (lk_step st (Sql nm SResetReplAll) r7) as st7. clear st H2. intros st H2.
@@ -377,6 +339,215 @@ Proof.
   destruct r7; cbn [bind]; first [apply (G (Some EOther)) | apply (G None)].
 Qed.
 
+(* stage 2 from a state with >= 1 successful re-check *)
+Lemma sw_after_positions_locks cfg env sw mem active positions st : 1 <= st ->
+  safe Z lk_step lk_ok st (sw_after_positions cfg env sw mem active positions).
+Proof.
+  intros H1. pose proof CRb as CR. unfold sw_after_positions.
+  destruct (most_recent positions) as [|mrh mrs|]; [| |exact I].
+  { cbn [safe]. split; [split; discriminate|]. intros; exact I. }
+  destruct (sw_choose cfg sw positions mrh) as [nm|]; [|exact I].
+  sb 1.
+  { destruct (negb (N.eqb nm mrh)); [|exact I].
+    sb 1; [apply safe_calm; apply ac_exec; reflexivity|]. intros st' [e|] H1'; [exact I|].
+    sb 1; [apply safe_calm1; [apply pcm_calm1|assumption]|]. intros; exact I. }
+  clear st H1. intros st pre H1. destruct (negb pre); [exact I|].
+  sb 1; [apply safe_calm; apply (c_now calmb); first [exact CR | intros; reflexivity]|]. clear st H1. intros st t0 H1.
+  sb 1; [apply safe_calm; apply (c_wait_catch_up calmb); first [exact CR | intros; reflexivity]|]. clear st H1. intros st cu H1.
+  destruct cu as [[|]|]; try exact I. apply sw_promote_locks. exact H1.
+Qed.
+
+Theorem switchover_lock_rechecks cfg env sw mem : safe Z lk_step lk_ok 0 (perform_switchover cfg env sw mem).
+Proof.
+  pose proof CRb as CR.
+  assert (H0 : 0 <= 0) by lia. revert H0. generalize 0 at 2 3 as st. intros st H0.
+  unfold perform_switchover.
+  match goal with |- safe _ _ _ _ (if ?c then _ else _) => destruct c end; [exact I|].
+  match goal with |- safe _ _ _ _ (if ?c then _ else _) => destruct c end; [exact I|].
+  set (active := match sw_cause_ sw, sw_from sw with | CauseAuto, Some f => _ | _, _ => _ end).
+  sb 0; [apply safe_calm; dapp d_opt_disable_all|]. clear st H0. intros st [e0|] H0; [exact I|].
+  sb 0; [destruct (negb (is_failover sw)); [apply safe_calm; dapp d_timing_now|exact I]|]. clear st H0. intros st _ H0.
+  cbn [safe]. split.
+  { induction active as [|h r IH]; [exact I|]. cbn [map]. split; [|exact IH].
+    eapply allcalls_impl; [|dapp d_freeze]. intros s c K. apply calmb_ok. exact K. }
+  intros errs.
+  match goal with |- safe _ _ _ _ (if ?c then _ else _) => destruct c end.
+  { sb 0; [apply safe_calm; dapp d_finish|]. intros; exact I. }
+  destruct (state_ping (se_state env) (se_old_master env)); [|exact I].
+  cbn [safe]. split.
+  { induction (filter_out active [se_old_master env]) as [|h r IH]; [exact I|]. cbn [map]. split; [|exact IH].
+    eapply allcalls_impl; [|dapp d_stop_io]. intros s c K. apply calmb_ok. exact K. }
+  intros errs2.
+  match goal with |- safe _ _ _ _ (if ?c then _ else _) => destruct c end; [exact I|].
+  unfold lock_acquire at 1. cbn [bind safe]. split; [split; discriminate|]. intros r1.
+  destruct r1; cbn [bind safe negb]; try exact I. match goal with |- context [RBool ?x] => destruct x end; cbn [negb]; [|exact I].
+  assert (H1 : 1 <= lk_step st LockAcquire (RBool true)) by (cbn; lia).
+  revert H1. generalize (lk_step st LockAcquire (RBool true)) as st1. clear st H0. intros st H1.
+  sb 1; [apply safe_calm; apply (c_node_positions calmb); first [exact CR | intros; reflexivity]|]. clear st H1. intros st op H1.
+  destruct op as [positions|]; [|exact I].
+  match goal with |- safe _ _ _ _ (if ?c then _ else _) => destruct c end; [exact I|].
+  match goal with |- safe _ _ _ _ (if ?c then _ else _) => destruct c end; [exact I|].
+  apply sw_after_positions_locks. exact H1.
+Qed.
+
 Theorem switchover_lock_rechecks_trace cfg env sw mem tr o : runs (perform_switchover cfg env sw mem) tr o ->
   trace_ok Z lk_step lk_ok 0 tr.
 Proof. apply safe_sound. apply switchover_lock_rechecks. Qed.
+
+(* ---- split brain: nothing but the emergency marker ------------------------------- *)
+Theorem splitbrain_aborts cfg env sw mem active positions :
+  most_recent positions = RecentSplitBrain ->
+  sw_after_positions cfg env sw mem active positions = Do 1370 (FileWrite (se_emerge_file env)) (fun _ => Ret (SwErr 1375, mem)).
+Proof. intros H. unfold sw_after_positions. rewrite H. reflexivity. Qed.
+
+(* ---- promotion evidence: the new master reported an executed set that contains
+   the most recent position (or the async-lag exception fired) ---------------------- *)
+Definition has_event (tr : trace) (c : call) (r : resp) : Prop := exists e, In e tr /\ ev_call e = c /\ ev_resp e = r.
+
+Definition catch_up_evidence (cfg : config) (nm : host) (target : gtidset) (tr : trace) : Prop :=
+  (exists g, has_event tr (Sql nm SGtidExecuted) (RGtid g) /\ set_contain g target = true) \/
+  (c_async cfg = true /\ 0 < c_async_allowed_lag cfg /\ exists d, has_event tr (Sql nm SReplMonDelay) (RZ d) /\ d * sec < c_async_allowed_lag cfg).
+
+Lemma has_event_cons e tr c r : has_event tr c r -> has_event (e :: tr) c r.
+Proof. intros (x & Hi & H). exists x. split; [right; exact Hi|exact H]. Qed.
+Lemma has_event_app_l t1 t2 c r : has_event t1 c r -> has_event (t1 ++ t2) c r.
+Proof. intros (x & Hi & H). exists x. split; [apply in_or_app; left; exact Hi|exact H]. Qed.
+Lemma has_event_app_r t1 t2 c r : has_event t2 c r -> has_event (t1 ++ t2) c r.
+Proof. intros (x & Hi & H). exists x. split; [apply in_or_app; right; exact Hi|exact H]. Qed.
+
+Lemma async_allowed_true cfg h sw tr : runs (async_switch_allowed cfg h sw) tr (Done true) ->
+  c_async cfg = true /\ 0 < c_async_allowed_lag cfg /\ exists d, has_event tr (Sql h SReplMonDelay) (RZ d) /\ d * sec < c_async_allowed_lag cfg.
+Proof.
+  unfold async_switch_allowed. destruct (sw_cause_ sw); try (cbn; intros [_ E]; inversion E; fail).
+  destruct (c_async cfg) eqn:Ea; cbn [andb]; [|cbn; intros [_ E]; inversion E].
+  destruct (Z.ltb_spec 0 (c_async_allowed_lag cfg)) as [Hl|Hl]; [|cbn; intros [_ E]; inversion E].
+  cbn [runs]. intros H. destruct tr as [|e1 tr1]; [destruct H|]. destruct H as (_ & _ & H).
+  assert (G : runs (Do 60019 (Sql h SReplMonDelay) (fun r2 => match r2 with RZ d => Ret (d * sec <? c_async_allowed_lag cfg) | _ => Ret false end)) tr1 (Done true) ->
+              exists d, has_event (e1 :: tr1) (Sql h SReplMonDelay) (RZ d) /\ d * sec < c_async_allowed_lag cfg).
+  { cbn [runs]. intros K. destruct tr1 as [|e2 tr2]; [destruct K|]. destruct K as (_ & Kc & K).
+    destruct (ev_resp e2) eqn:Er; cbn in K; destruct K as [_ E]; inversion E as [E'].
+    symmetry in E'. apply Z.ltb_lt in E'. exists z. split; [|exact E']. exists e2. split; [right; left; reflexivity|auto]. }
+  split; [reflexivity|]. split; [exact Hl|].
+  destruct (ev_resp e1); try (cbn in H; destruct H as [_ E]; inversion E; fail); try (apply G; exact H).
+  destruct e; try (cbn in H; destruct H as [_ E]; inversion E; fail). apply G; exact H.
+Qed.
+
+Lemma wait_catch_up_true fuel cfg h target sw dl : forall tr,
+  runs (wait_for_catch_up fuel cfg h target sw dl) tr (Done (Some true)) -> catch_up_evidence cfg h target tr.
+Proof.
+  induction fuel as [|f IH]; intros tr H; cbn [wait_for_catch_up] in H; [cbn in H; destruct H as [_ E]; inversion E|].
+  apply runs_bind_inv in H. destruct H as [(t1 & t2 & [g e] & H1 & H2 & ->)|(s & _ & E)]; [|discriminate].
+  cbn [fst snd] in H2. destruct e; [cbn in H2; destruct H2 as [_ E]; inversion E|].
+  destruct (set_contain g target) eqn:Ec.
+  - cbn in H2. destruct H2 as [-> _]. rewrite app_nil_r. left. exists g. split; [|exact Ec].
+    unfold gtid_executed in H1. cbn [runs] in H1. destruct t1 as [|e1 t1']; [destruct H1|]. destruct H1 as (_ & Hc & H1).
+    destruct (ev_resp e1) eqn:Er; cbn in H1; destruct H1 as [_ E]; inversion E; subst.
+    exists e1. split; [left; reflexivity|auto].
+  - cbn [runs] in H2. destruct t2 as [|e2 t2']; [destruct H2|]. destruct H2 as (_ & _ & H2).
+    assert (Hev : forall t, catch_up_evidence cfg h target t -> catch_up_evidence cfg h target (t1 ++ e2 :: t)).
+    { intros t [(g' & Hg & Hc)|(A1 & A2 & d & Hd & Hl)].
+      - left. exists g'. split; [apply has_event_app_r; apply has_event_cons; exact Hg|exact Hc].
+      - right. split; [exact A1|]. split; [exact A2|]. exists d. split; [apply has_event_app_r; apply has_event_cons; exact Hd|exact Hl]. }
+    assert (G : forall t, runs (Do 2308 (Sleep sec) (fun _ => t' <- now_ 2309 ;; if dl <? t' then Ret (Some false) else wait_for_catch_up f cfg h target sw dl)) t (Done (Some true)) ->
+                catch_up_evidence cfg h target t).
+    { intros t K. cbn [runs] in K. destruct t as [|e3 t3]; [destruct K|]. destruct K as (_ & _ & K).
+      unfold now_ in K. cbn [bind runs] in K. destruct t3 as [|e4 t4]; [destruct K|]. destruct K as (_ & _ & K).
+      match type of K with context [if ?c then _ else _] => destruct c end; [cbn in K; destruct K as [_ E]; inversion E|].
+      apply IH in K. destruct K as [(g' & Hg & Hc)|(A1 & A2 & d & Hd & Hl)].
+      - left. exists g'. split; [apply has_event_cons; apply has_event_cons; exact Hg|exact Hc].
+      - right. split; [exact A1|]. split; [exact A2|]. exists d. split; [apply has_event_cons; apply has_event_cons; exact Hd|exact Hl]. }
+    apply Hev.
+    destruct (ev_resp e2); try (apply G; exact H2).
+    + destruct e; try (apply G; exact H2). cbn in H2. destruct H2 as [_ E]; inversion E.
+    + destruct v; try (apply G; exact H2).
+      apply runs_bind_inv in H2. destruct H2 as [(u1 & u2 & a & K1 & K2 & ->)|(s' & _ & E)]; [|discriminate].
+      destruct a.
+      * apply async_allowed_true in K1. destruct K1 as (A1 & A2 & d & Hd & Hl).
+        right. split; [exact A1|]. split; [exact A2|]. exists d. split; [apply has_event_app_l; exact Hd|exact Hl].
+      * apply G in K2. destruct K2 as [(g' & Hg & Hc)|(A1 & A2 & d & Hd & Hl)].
+        -- left. exists g'. split; [apply has_event_app_r; exact Hg|exact Hc].
+        -- right. split; [exact A1|]. split; [exact A2|]. exists d. split; [apply has_event_app_r; exact Hd|exact Hl].
+Qed.
+
+Definition issues_set_writable (tr : trace) : Prop := exists e h, In e tr /\ ev_call e = Sql h SSetWritable.
+
+Lemma calm_no_set_writable {A} (p : prog A) tr o :
+  allcalls (fun _ c => calm1b c = true) p -> runs p tr o -> ~ issues_set_writable tr.
+Proof.
+  intros Ha Hr (e & h & Hi & Hc). pose proof (allcalls_sound _ _ Ha tr o Hr) as F.
+  rewrite Forall_forall in F. specialize (F e Hi). unfold ProgFacts.ev_ok in F. cbn beta in F. rewrite Hc in F. cbn in F. discriminate.
+Qed.
+
+Lemma issues_app t1 t2 : issues_set_writable (t1 ++ t2) -> issues_set_writable t1 \/ issues_set_writable t2.
+Proof.
+  intros (e & h & Hi & Hc). apply in_app_or in Hi. destruct Hi as [Hi|Hi]; [left|right]; exists e, h; auto.
+Qed.
+
+Lemma calmb_calm1b c : calmb c = true -> calm1b c = true.
+Proof. intros H. unfold calm1b. destruct c; try exact H. destruct s; try exact H; reflexivity. Qed.
+
+Lemma catch_up_evidence_app_l cfg nm tgt t1 t2 : catch_up_evidence cfg nm tgt t1 -> catch_up_evidence cfg nm tgt (t1 ++ t2).
+Proof.
+  intros [(g & Hg & Hc)|(A1 & A2 & d & Hd & Hl)].
+  - left. exists g. split; [apply has_event_app_l; exact Hg|exact Hc].
+  - right. split; [exact A1|]. split; [exact A2|]. exists d. split; [apply has_event_app_l; exact Hd|exact Hl].
+Qed.
+Lemma catch_up_evidence_app_r cfg nm tgt t1 t2 : catch_up_evidence cfg nm tgt t2 -> catch_up_evidence cfg nm tgt (t1 ++ t2).
+Proof.
+  intros [(g & Hg & Hc)|(A1 & A2 & d & Hd & Hl)].
+  - left. exists g. split; [apply has_event_app_r; exact Hg|exact Hc].
+  - right. split; [exact A1|]. split; [exact A2|]. exists d. split; [apply has_event_app_r; exact Hd|exact Hl].
+Qed.
+
+(* every run of stage 2 that makes a node writable found a most recent position,
+   chose a candidate, and saw the candidate report an executed set containing
+   that position (or the configured async-lag exception) BEFORE doing so *)
+Theorem promotion_needs_catch_up cfg env sw mem active positions tr o :
+  runs (sw_after_positions cfg env sw mem active positions) tr o ->
+  issues_set_writable tr ->
+  exists mrh mrs nm, most_recent positions = RecentFound mrh mrs /\ sw_choose cfg sw positions mrh = Some nm /\
+                     catch_up_evidence cfg nm mrs tr.
+Proof.
+  pose proof CRb as CR.
+  unfold sw_after_positions. intros H Hw.
+  destruct (most_recent positions) as [|mrh mrs|] eqn:Emr.
+  - exfalso. cbn [runs] in H. destruct tr as [|e tr']; [destruct H|]. destruct H as (_ & Hc & H). cbn in H. destruct H as [-> _].
+    destruct Hw as (x & h & [<-|[]] & Hx). rewrite Hc in Hx. discriminate.
+  - destruct (sw_choose cfg sw positions mrh) as [nm|] eqn:Ech.
+    2:{ exfalso. cbn in H. destruct H as [-> _]. destruct Hw as (x & h & [] & _). }
+    exists mrh, mrs, nm. split; [reflexivity|]. split; [exact Ech|].
+    apply runs_bind_inv in H. destruct H as [(t1 & t2 & pre & H1 & H2 & ->)|(s & H1 & _)].
+    2:{ exfalso. revert Hw. eapply calm_no_set_writable; [|exact H1].
+        destruct (negb (N.eqb nm mrh)); [|exact I].
+        apply allcalls_bind; [apply ac_exec; reflexivity|]. intros [e|]; [exact I|].
+        apply allcalls_bind; [apply pcm_calm1|]. intros; exact I. }
+    assert (N1 : ~ issues_set_writable t1).
+    { eapply calm_no_set_writable; [|exact H1].
+      destruct (negb (N.eqb nm mrh)); [|exact I].
+      apply allcalls_bind; [apply ac_exec; reflexivity|]. intros [e|]; [exact I|].
+      apply allcalls_bind; [apply pcm_calm1|]. intros; exact I. }
+    apply issues_app in Hw. destruct Hw as [Hw|Hw]; [contradiction|].
+    apply catch_up_evidence_app_r.
+    destruct (negb pre); [exfalso; cbn in H2; destruct H2 as [-> _]; destruct Hw as (x & h & [] & _)|].
+    apply runs_bind_inv in H2. destruct H2 as [(u1 & u2 & t0 & K1 & K2 & ->)|(s & K1 & _)].
+    2:{ exfalso. revert Hw. eapply calm_no_set_writable; [|exact K1].
+        eapply allcalls_impl; [intros s0 c; apply calmb_calm1b|]. apply (c_now calmb); reflexivity. }
+    assert (N2 : ~ issues_set_writable u1).
+    { eapply calm_no_set_writable; [|exact K1].
+      eapply allcalls_impl; [intros s0 c; apply calmb_calm1b|]. apply (c_now calmb); reflexivity. }
+    apply issues_app in Hw. destruct Hw as [Hw|Hw]; [contradiction|].
+    apply catch_up_evidence_app_r.
+    apply runs_bind_inv in K2. destruct K2 as [(v1 & v2 & cu & L1 & L2 & ->)|(s & L1 & _)].
+    2:{ exfalso. revert Hw. eapply calm_no_set_writable; [|exact L1].
+        eapply allcalls_impl; [intros s0 c; apply calmb_calm1b|]. apply (c_wait_catch_up calmb); first [exact CR | intros; reflexivity]. }
+    assert (N3 : ~ issues_set_writable v1).
+    { eapply calm_no_set_writable; [|exact L1].
+      eapply allcalls_impl; [intros s0 c; apply calmb_calm1b|]. apply (c_wait_catch_up calmb); first [exact CR | intros; reflexivity]. }
+    apply issues_app in Hw. destruct Hw as [Hw|Hw]; [contradiction|].
+    apply catch_up_evidence_app_l.
+    destruct cu as [[|]|].
+    + eapply wait_catch_up_true; exact L1.
+    + exfalso. cbn in L2. destruct L2 as [-> _]. destruct Hw as (x & h & [] & _).
+    + exfalso. cbn in L2. destruct L2 as [-> _]. destruct Hw as (x & h & [] & _).
+  - exfalso. cbn in H. destruct H as [-> _]. destruct Hw as (x & h & [] & _).
+Qed.
